@@ -809,6 +809,30 @@ theorem loadBlobCopies_spec (cs : List Copy) :
             exact ⟨xs, rest, h.2, fun c hc => hpre c (List.mem_cons_of_mem _ hc)⟩
       · rw [ih.2]; simp
 
+/-- the stored lengths of the copies play no role: whatever the lengths (compressed and
+    uncompressed copies of one blob, shorter damaged copy first, …) and whatever buffer the caller
+    passed in, `loadBlob` delivers the first intact copy -/
+theorem loadBlobSized_eq (cs : List StoredCopy) (bufLen : Nat) :
+    loadBlobSized cs bufLen = loadBlobCopies (cs.map (·.state)) := by
+  induction cs generalizing bufLen with
+  | nil => rfl
+  | cons c rest ih =>
+    cases hst : c.state with
+    | good p => simp [loadBlobSized, loadBlobCopies, hst]
+    | damaged => simp [loadBlobSized, loadBlobCopies, hst, ih]
+    | invalid => simp [loadBlobSized, loadBlobCopies, hst, ih]
+
+/-- **fallback across packs**: `LoadBlob` fails only if no stored copy is intact -/
+theorem loadBlob_finds_intact (cs : List StoredCopy) (bufLen : Nat) (c : StoredCopy) (p : Nat)
+    (hc : c ∈ cs) (hg : c.state = .good p) : ∃ q, loadBlobSized cs bufLen = some q := by
+  rw [loadBlobSized_eq]
+  cases h : loadBlobCopies (cs.map (·.state)) with
+  | some q => exact ⟨q, rfl⟩
+  | none =>
+    exfalso
+    have := (loadBlobCopies_spec (cs.map (·.state))).2.mp h c.state (List.mem_map_of_mem hc) p
+    exact this hg
+
 /-! ### T1: constants and call order regenerated from the current source -/
 
 /-- `maxChunkSize` is the function-local constant `2 * DefaultPackSize`; its agreement with this
@@ -857,5 +881,7 @@ example : (streamPack 100 10
       fallback := some (fun id => if id = 1 then some 11 else none), cbFails := fun _ => false }
     [b 1 0 20, b 2 20 20, b 3 500 20]) = ([.ok 1 11, .ok 2 7, .err 3], .ok) := by decide
 example : loadBlobCopies [.damaged, .invalid, .good 5, .good 6] = some 5 := by decide
+/-- a short damaged copy first, a longer intact copy second -/
+example : loadBlobSized [⟨60, .damaged⟩, ⟨400, .good 5⟩] 0 = some 5 := by decide
 
 end Restic.Props.C43
